@@ -46,12 +46,25 @@ def _impl_worker(srcs):
 def impl_many(srcs, procs=None):
     if len(srcs) < 2000:
         return _impl_worker(srcs)
+    import gc
+    from impl import lex_impl
     procs = procs or min(16, mp.cpu_count())
     n = max(500, len(srcs) // (procs * 4))
     chunks = [srcs[i:i + n] for i in range(0, len(srcs), n)]
+    gc.freeze()          # keep the big input lists out of the workers' collections (no copy-on-write storms)
     with mp.Pool(procs) as pool:
         out = pool.map(_impl_worker, chunks)
-    return [x for c in out for x in c]
+    out = [x for c in out for x in c]
+    # a worker can be stalled for seconds by the machine, not by the input: a run that did not finish in
+    # a worker is only believed after it does not finish in this process either, with a generous limit
+    again = [k for k, o in enumerate(out) if o.get("exc") == "hang"]
+    confirmed = 0
+    for k in again:
+        if confirmed >= 20:
+            break               # plenty of genuine ones: the rest is believed
+        out[k] = lex_impl(srcs[k], timeout=30.0)
+        confirmed += out[k].get("exc") == "hang"
+    return out
 
 
 def _model_worker(srcs):
